@@ -49,6 +49,16 @@ class World:
             self.templates.append(t)
             self.extras.append(extra)
         self.extras.append({})
+        # the same wildcard text as an action pattern and as a StringLike / ArnLike operand (the two uses differ in case rules)
+        pat = rng.choice(["s3:getobject*", "ec2:describe*", "iam:Pass?ole", "sqs:*"])
+        hit = next((a for a in __import__("pycfmodel.cloudformation_actions", fromlist=["x"]).CLOUDFORMATION_ACTIONS if __import__("re").fullmatch(pat.replace("*", ".*").replace("?", "."), a, 2)), pat)
+        self.templates.append({"Resources": {"Ov": {"Type": "AWS::IAM::ManagedPolicy", "Properties": {"PolicyDocument": {"Statement": [
+            {"Effect": "Allow", "Action": pat, "Resource": "*", "Condition": {"StringLike": {"aws:PrincipalTag/op": pat}}}]}}}}})
+        from pycfmodel.model.resources.properties.statement_condition import StatementCondition as _SC
+
+        self.conds.append(_SC.model_validate({"StringLike": {"aws:PrincipalTag/op": pat}}))
+        self.contexts.append({"aws:PrincipalTag/op": hit.swapcase()})
+        self.contexts.append({"aws:PrincipalTag/op": hit})
         for _ in range(3):
             blk = gencond.gen_block(rng)
             try:
@@ -62,12 +72,34 @@ class World:
         self.contexts.append({})
 
     def class_level(self):
-        import pycfmodel.cloudformation_actions as ca
-        import pycfmodel.constants as k
-        import pycfmodel.resolver as r
+        """every module-level and class-level mutable container (and flag) of the library's modules, by name"""
+        import sys
 
-        return (snap(self.CFModel.PSEUDO_PARAMETERS), len(ca.CLOUDFORMATION_ACTIONS), hash(tuple(ca.CLOUDFORMATION_ACTIONS)),
-                snap(sorted(k.IMPLEMENTED_FUNCTIONS)), tuple(sorted(r.FUNCTION_MAPPINGS)))
+        out = []
+        for mname in sorted(m for m in sys.modules if m == "pycfmodel" or m.startswith("pycfmodel.")):
+            mod = sys.modules[mname]
+            for name, val in sorted(vars(mod).items(), key=lambda kv: kv[0]):
+                if name.startswith("__"):
+                    continue
+                if isinstance(val, (dict, list, set, frozenset, bytearray)):
+                    out.append((mname, name, self._digest(val)))
+                elif isinstance(val, type) and getattr(val, "__module__", None) == mname:
+                    for attr, cv in sorted(vars(val).items(), key=lambda kv: kv[0]):
+                        if attr.startswith("__") or attr in ("model_fields", "model_computed_fields", "model_config"):
+                            continue
+                        if isinstance(cv, (dict, list, set, frozenset, bool, int, str)) and not attr.startswith("_abc"):
+                            out.append((mname, name + "." + attr, self._digest(cv)))
+        return tuple(out)
+
+    @staticmethod
+    def _digest(val):
+        if isinstance(val, (list, tuple)) and len(val) > 2000:
+            return (type(val).__name__, len(val), hash(tuple(map(str, val))))
+        if isinstance(val, (set, frozenset)):
+            return (type(val).__name__, len(val), hash(tuple(sorted(map(repr, val)))))
+        if isinstance(val, dict):
+            return ("dict", len(val), hash(tuple((repr(k), repr(v)) for k, v in val.items())))
+        return (type(val).__name__, repr(val)[:2000])
 
     def snapshot(self, only_model=None):
         """every object of the world; `only_model` restricts the (expensive) receivers to the one a call is made on —
@@ -177,6 +209,10 @@ def diff_keys(a, b):
     out = []
     for k in a:
         if a[k] != b[k]:
+            if k == "class-level":
+                da, db = {x[:2]: x[2] for x in a[k]}, {x[:2]: x[2] for x in b[k]}
+                out += [f"class-level[{m}.{n}]" for (m, n) in sorted(set(da) | set(db)) if da.get((m, n)) != db.get((m, n))]
+                continue
             if isinstance(a[k], list):
                 out += [f"{k}[{i}]" for i, (x, y) in enumerate(zip(a[k], b[k])) if x != y] or [k]
             else:
@@ -311,6 +347,61 @@ def run_threads(report, rng, n_threads, per_thread):
         report.violation("oracle", "concurrent-calls-modify-" + changed[0].split("[")[0], op={"templates": w.templates, "changed": changed})
 
 
+def order_worker(seed, perm):
+    """(subprocess entry) the calls of one seeded world, made in the order given by `perm`, results per call"""
+    import json
+    import logging
+    import sys
+
+    logging.disable(logging.CRITICAL)
+    rng = common.rng_for("C06o", seed)
+    w = World(rng)
+    for t in w.templates:
+        try:
+            w.models.append(tmpl.parse(t))
+        except Exception:
+            pass
+    calls = []
+    for mi in range(len(w.models)):
+        calls += [("expand", mi), ("queries", mi), ("resolve", mi, 0)]
+    for ci in range(len(w.conds)):
+        for xi in range(len(w.contexts)):
+            calls.append(("cond", ci, xi))
+    order = list(range(len(calls)))
+    common.rng_for("C06p", perm).shuffle(order)
+    out = {}
+    for i in order:
+        try:
+            out[str(calls[i])] = str(do_call(w, calls[i])[0])
+        except Exception as e:
+            out[str(calls[i])] = "raises " + common.exc_class(e)
+    import hashlib
+
+    sys.stdout.write(json.dumps({k: hashlib.sha256(v.encode()).hexdigest()[:16] + ":" + v[:120] for k, v in out.items()}))
+
+
+def run_orders(report, seed, n_orders):
+    """the same calls in different orders, each order in a fresh interpreter (module-level state starts empty every time):
+    every call must return the same in every order"""
+    import json
+    import subprocess
+
+    outs = []
+    for perm in range(n_orders):
+        p = subprocess.run(["/venv/bin/python", "-c", f"import sys; sys.path.insert(0, {common.ROOT!r}); sys.path.insert(0, {common.REPO!r}); from harness.props import c06; c06.order_worker({seed}, {perm})"],
+                           stdout=subprocess.PIPE, stderr=subprocess.DEVNULL, timeout=600, cwd=common.ROOT)
+        if p.returncode != 0 or not p.stdout:
+            raise common.InfraError("order worker failed")
+        outs.append(json.loads(p.stdout))
+    report.count("fresh-process-orders", n_orders)
+    for k in outs[0]:
+        vals = {o.get(k) for o in outs}
+        report.count("fresh-process-call")
+        if len(vals) > 1:
+            report.violation("oracle", "result-depends-on-call-order-across-fresh-processes:" + k.split("'")[1], op={"call": k, "world_seed": seed, "orders": list(range(n_orders))},
+                             impl={"results": sorted(map(str, vals))[:3]}, oracle="the same call in differently ordered histories, each in a fresh interpreter (C06_repeatable)")
+
+
 def run(report, tier, seed, driver, proofs_ok):
     rng = common.rng_for("C06", seed)
     thorough = tier == "thorough"
@@ -324,6 +415,8 @@ def run(report, tier, seed, driver, proofs_ok):
     )
     for h in range(60 if thorough else 8):
         run_history(report, rng, 40 if thorough else 18, f"h{h}")
+    for ws in range(8 if thorough else 2):
+        run_orders(report, seed * 100 + ws, 4 if thorough else 3)
     for k in range(6 if thorough else 1):
         run_threads(report, rng, 8 if thorough else 4, 12 if thorough else 6)
     from .. import effects
